@@ -269,6 +269,9 @@ STRUCTURAL = [
     ("colvar:period-negative", cv("x", 1, "", "    period -1\n"), None),
     ("colvar:duplicate-name", cv("zz0", 1), "reject"),
     ("group:hbond-nonexistent-atom", "colvar {\n  name s\n  hBond {\n    acceptor 1000\n    donor 2\n  }\n}\n", "reject"),
+    ("group:residue-range-huge", "colvar {\n  name s\n  alpha {\n    residueRange 1-2147483647\n    psfSegID MAIN\n  }\n}\n", "reject"),
+    ("group:residue-range-huge-dihedpc", "colvar {\n  name s\n  dihedralPC {\n    residueRange 1-2147483647\n    psfSegID MAIN\n    vector 1 1 1 1\n  }\n}\n", "reject"),
+    ("group:residue-range-reversed", "colvar {\n  name s\n  alpha {\n    residueRange 9-1\n    psfSegID MAIN\n  }\n}\n", "reject"),
     ("group:hbond-valid", "colvar {\n  name s\n  hBond {\n    acceptor 1\n    donor 2\n  }\n}\n", "accept"),
 ]
 
